@@ -245,7 +245,7 @@ class _Capture:
         self.it = MiniInterp(prj, self.hook, max_steps=200000)
 
     def hook(self, it, kind, f, args, kwargs, node, cur):
-        from .absint import BoundFunc, T
+        from .absint import BoundFunc, Sym, T
         if kind != "call":
             return NotImplemented
         if isinstance(f, BoundFunc) and f.fi.qual == self.get_headers.qual:
@@ -254,6 +254,11 @@ class _Capture:
             bound.update(kwargs)
             self.calls.append((bound.get("tokens"), bound.get("expression"), bound.get("followed_by"), node, cur))
             return []
+        # expressions compiled ahead of time (a language that builds its automata once): the compiled object stands for its expression
+        if isinstance(f, BoundFunc) and f.fi.name == "expression_to_nfa" and args:
+            return Sym("nfa-of-expression", source_expr=args[0])
+        if isinstance(f, BoundFunc) and f.fi.name == "nfa_to_dfa" and args and isinstance(args[0], Sym) and "source_expr" in args[0].fields:
+            return Sym("dfa-of-expression", source_expr=args[0].fields["source_expr"])
         if isinstance(f, BoundFunc) and f.fi.name in ("find_all", "starts_with", "match") and f.fi.module.name.endswith("gsm.matcher"):
             raise AnalysisError(f"{cur.site(node) if cur and node is not None else f.fi.disp}: extract_headers uses the matcher "
                                 f"directly; only patterns handed to get_headers(...) are modelled")
@@ -301,6 +306,8 @@ class _Capture:
 
     def to_pat(self, v, site: str = "") -> Pat:
         from .absint import Sym
+        if isinstance(v, Sym) and "source_expr" in v.fields:
+            return self.to_pat(v.fields["source_expr"], site)
         if isinstance(v, (list, tuple)) and not (isinstance(v, tuple) and type(v) is not tuple):
             return Pat("seq", [self.to_pat(e, site) for e in v])
         if isinstance(v, Sym) and v.cls is not None and v.cls.is_subclass_of(self.operator_base):
